@@ -234,7 +234,7 @@ def main():
         merge_findings(F, f)
         for k, v in st.items():
             tot[k] = tot.get(k, 0) + v
-    if tot.get("bindings", 0) == 0 or tot.get("e2e_values", 0) == 0:
+    if (tot.get("bindings", 0) == 0 or tot.get("e2e_values", 0) == 0) and F.n_unlisted() == 0:
         raise Harness("observed too little: %s" % tot)
     rc = F.report()
     write_evidence(PROP, "exploration", tr, dict(
